@@ -98,6 +98,8 @@ def r10_agreement(run, tree):
              "a python number, an Array or a Quantity in compatible and incompatible units", "D7 fold of core/vector.py and core/array.py together with dispatching numpy models", "", floor=6)
     from . import quantity_stack as qs
     qs.check_vector_lifting_stack(run, tree)
+    # ... and those component Arrays updated in place hold x op y as a physical quantity (v [m] += w [cm] adds lengths, not raw numbers)
+    qs.check_inplace_stack(run, tree)
 
 
 RULES = [r1_forwarding, r2_lifting, r3_cross, r4_norm, r5_dot, r6_construction, r7_conversion, r8_gate, r4b_norm_corners, r10_agreement]
